@@ -408,6 +408,24 @@ def declared (evs : List (Name × List Path)) (e : Name) (q : Path) : Bool :=
   | some srcs => srcs.contains q
   | none => false
 
+/-- `separator.join(path)` -/
+def joinSep (sep : Nat) : Path → Name
+  | [] => []
+  | [x] => x
+  | x :: y :: r => x ++ sep :: joinSep sep (y :: r)
+
+/-- the auto transition event of a state: `'to_%s' % <global name>` (`HierarchicalMachine._init_state`) -/
+def toEventH (sep : Nat) (p : Path) : Name := sTo ++ joinSep sep p
+
+def HSM.topStates (h : HSM) : List Name :=
+  h.states.filterMap fun p => match p with | [x] => some x | _ => none
+
+/-- what `_init_state` establishes with auto transitions on (for states added by name, as dict, as ready-made
+NestedState objects with substates, or through an embedded machine): every state's `to_<state>` is declared in the
+root scope with EVERY top-level state as a source -/
+def autoCoveredB (h : HSM) (sep : Nat) : Bool :=
+  h.states.all fun p => h.topStates.all fun x => declared (h.scopeEvents []) (toEventH sep p) [x]
+
 /-- Which events are offered a transition when the model is in state `pre ++ p`
 (`_trigger_event_nested` descends along the active branch; in every scope on the way
 `NestedEvent.trigger_nested` tries every state of the branch below that scope, i.e. every non-empty
@@ -427,12 +445,6 @@ def descend (t : List Path) (e : Name) : List Path :=
 def isStateH (t : List Path) : Path → Bool → Bool
   | [], allow => t.isEmpty || allow
   | e :: r, allow => if t.any (fun p => p.head? = some e) then isStateH (descend t e) r allow else false
-
-/-- `separator.join(path)` -/
-def joinSep (sep : Nat) : Path → Name
-  | [] => []
-  | [x] => x
-  | x :: y :: r => x ++ sep :: joinSep sep (y :: r)
 
 /-- `str.split(separator)` for a one-character separator -/
 def splitSep (sep : Nat) : Name → Path
